@@ -59,6 +59,7 @@ type vPutGate struct {
 	consumed chan int
 	hash     string
 	size     int
+	ncut     int
 }
 
 func (g *vPutGate) log(ev map[string]interface{}) {
@@ -68,6 +69,10 @@ func (g *vPutGate) log(ev map[string]interface{}) {
 		g.events = append(g.events, ev)
 	}
 }
+
+type vErrReader struct{}
+
+func (vErrReader) Read([]byte) (int, error) { return 0, io.ErrUnexpectedEOF }
 
 type vTrackedBody struct {
 	io.Reader
@@ -102,7 +107,7 @@ func (g *vPutGate) Do(req *http.Request) (*http.Response, error) {
 	status := 200
 	body := ""
 	switch k {
-	case "ok1":
+	case "ok1", "okcut":
 		hdr.Set(XKeepReplicasStored, "1")
 	case "ok2":
 		hdr.Set(XKeepReplicasStored, "2")
@@ -114,7 +119,16 @@ func (g *vPutGate) Do(req *http.Request) (*http.Response, error) {
 	if status == 200 {
 		body = fmt.Sprintf("%s+%d+Asrv%d@ffffffff\n", g.hash, g.size, srv)
 	}
-	tb := &vTrackedBody{Reader: strings.NewReader(body), f: func() {
+	var rdr io.Reader = strings.NewReader(body)
+	if k == "okcut" {
+		// 200 with the replicas header, but the connection breaks while the body (the locator) is read
+		g.mu.Lock()
+		g.ncut++
+		cut := (g.ncut * 7) % len(body)
+		g.mu.Unlock()
+		rdr = io.MultiReader(strings.NewReader(body[:cut]), vErrReader{})
+	}
+	tb := &vTrackedBody{Reader: rdr, f: func() {
 		select {
 		case g.consumed <- srv:
 		default:
@@ -129,7 +143,7 @@ func (g *vPutGate) Do(req *http.Request) (*http.Response, error) {
 
 var vIssuerRe = regexp.MustCompile(`\+Asrv(\d+)@`)
 
-var vAllPutKinds = []string{"ok1", "ok2", "oknh", "s400", "s403", "s408", "s429", "s500", "s502", "s503", "connerr"}
+var vAllPutKinds = []string{"okcut", "ok1", "ok2", "oknh", "s400", "s403", "s408", "s429", "s500", "s502", "s503", "connerr"}
 
 func vRunPutScenario(scn vPutScenario) []map[string]interface{} {
 	rng := rand.New(rand.NewSource(int64(scn.ID)*7919 + scn.RSeed))
@@ -247,7 +261,7 @@ func vRunPutScenario(scn vPutScenario) []map[string]interface{} {
 		}
 	}
 	waitFor := func(s int) bool {
-		deadline := time.After(3 * time.Second)
+		deadline := time.After(30 * time.Second)
 		for len(pending[s]) == 0 {
 			select {
 			case r := <-g.arrivals:
@@ -275,7 +289,7 @@ func vRunPutScenario(scn vPutScenario) []map[string]interface{} {
 					pending[r.srv] = append(pending[r.srv], r)
 					npending++
 				case <-done:
-				case <-time.After(3 * time.Second):
+				case <-time.After(30 * time.Second):
 					// nothing pending, not done: give up (recorded as is; the judge sees no "done")
 					g.log(map[string]interface{}{"ev": "hang"})
 					goto finish
@@ -333,7 +347,7 @@ func vRunPutScenario(scn vPutScenario) []map[string]interface{} {
 				pending[r.srv] = append(pending[r.srv], r)
 				npending++
 			case <-done:
-			case <-time.After(3 * time.Second):
+			case <-time.After(30 * time.Second):
 				g.log(map[string]interface{}{"ev": "hang"})
 				goto finish
 			}
